@@ -67,8 +67,9 @@ def install():
         numpy.broadcast_shapes = _dispatch
     if hasattr(at, "np") and not isinstance(at.np, NpProxy):
         at.np = NpProxy(numpy)
-    for name in ("broadcast_shapes",):
-        if getattr(at, name, None) is _REAL[0]:
+    # the function may also have been imported by name (`from numpy import broadcast_shapes as x`)
+    for name, value in list(vars(at).items()):
+        if value is _REAL[0]:
             setattr(at, name, _dispatch)
 
 
